@@ -141,6 +141,7 @@ mk_global  xor_gen_sse, function
 func(xor_gen_sse)
 	FUNC_SAVE
 %ifidn PS,8				;64-bit code
+	movsxd	vec, DWORD(vec)	;vects is a signed int
 	sub	vec, 2			; Keep as offset to last source
 %else					;32-bit code
 	mov	tmp, arg(0)		; Update vec length arg to last source
